@@ -507,6 +507,172 @@ def job_interpolate(t):
                 name='c09.interpolate_%s.delta1.%s' % (t, sg), solver='z3', timeout=120, bounds='delta = 1: m1 = translation, m2 = translation * Rodrigues(c,s,n) outside the near-symmetrical band; ' + sg)
     return run
 
+# ------------------------------------------------------------------------------------------------ solver-justified simplification chains (decompose)
+def _fresh_vars(t, memo):
+    k = t.get_id()
+    if k in memo: return memo[k]
+    if z3.is_const(t) and t.decl().kind() == z3.Z3_OP_UNINTERPRETED: r = frozenset([t.decl().name()]) if '!' in t.decl().name() else frozenset()
+    else:
+        r = frozenset()
+        for c in t.children(): r = r | _fresh_vars(c, memo)
+    memo[k] = r; return r
+def select_axioms(axioms, terms):
+    """the axioms that (transitively) talk about an engine-fresh variable (sqrt!k, sin!k ..) occurring in terms; dropping the others only weakens the hypotheses"""
+    memo = {}; need = set()
+    for t in terms: need |= _fresh_vars(t, memo)
+    av = [_fresh_vars(a, memo) for a in axioms]; keep = set(); ch = True
+    while ch:
+        ch = False
+        for i, v in enumerate(av):
+            if i not in keep and (v & need): keep.add(i); need |= v; ch = True
+    return [a for i, a in enumerate(axioms) if i in keep]
+def _walk(t, f, seen):
+    k = t.get_id()
+    if k in seen: return
+    seen.add(k)
+    for c in t.children(): _walk(c, f, seen)
+    f(t)
+def _has_bv(t, memo):
+    k = t.get_id()
+    if k in memo: return memo[k]
+    r = z3.is_bv(t) or any(_has_bv(c, memo) for c in t.children()); memo[k] = r; return r
+class Chain:
+    """Rewrites the executor's output terms step by step; every rewrite is an equality / equivalence discharged by the solver under the precondition (recorded as 'lemma' obligations):
+    equate: a sqrt variable equals a specification term (then substituted);  cancel: (p*v)/v == p for v != 0;  conds: If-conditions that are constant under the precondition;
+    bvfree: Boolean atoms over bit-vector index arithmetic == the equivalent formula over the real comparisons inside them."""
+    def __init__(s, S, name, pre, axioms, nonzero=(), functions=()):
+        s.S = S; s.name = name; s.pre = list(pre); s.ax = list(axioms); s.g = {}; s.nz = {v.decl().name(): v for v in nonzero}; s.n = 0; s.fn = list(functions)
+    def track(s, key, terms): s.g[key] = [z3.simplify(t) for t in terms]
+    def terms(s): return [t for k in s.g for t in s.g[k]] + s.ax
+    def apply(s, pairs):
+        if not pairs: return
+        for k in s.g: s.g[k] = [z3.simplify(z3.substitute(t, *pairs)) for t in s.g[k]]
+        s.ax = [z3.simplify(z3.substitute(a, *pairs)) for a in s.ax]
+        s.ax = [a for a in s.ax if not z3.is_true(a)]
+    def lemma(s, label, goal, hyps, solver='nra', timeout=None, mandatory=True):
+        s.n += 1
+        r, _ = s.S.prove('%s.chain%03d.%s' % (s.name, s.n, label[:90]), goal, list(hyps), kind='lemma', solver=solver, timeout=timeout or s.S.cap(30, 90), functions=s.fn, mandatory=mandatory)
+        return r == 'unsat'
+    def equate(s, label, var, arg, want_sq, want, extra=()):
+        """var is the executor's sqrt of arg: (1) arg == want_sq (identity under pre), (2) var == want from var >= 0, var^2 == want_sq, want >= 0; then var := want everywhere"""
+        a = z3.simplify(arg)
+        ok1 = s.lemma(label + '.arg', a == want_sq, s.pre + list(extra))
+        ok2 = s.lemma(label + '.root', var == want, s.pre + list(extra) + [var >= 0, var * var == want_sq])
+        if ok1 and ok2: s.apply([(var, want)])
+        return ok1 and ok2
+    def cancel(s, rounds=8):
+        for _ in range(rounds):
+            acc = []; seen = set()
+            def f(t):
+                if z3.is_app(t) and t.decl().kind() == z3.Z3_OP_DIV:
+                    d = t.arg(1)
+                    if z3.is_const(d) and d.decl().kind() == z3.Z3_OP_UNINTERPRETED and d.decl().name() in s.nz: acc.append(t)
+            for t in s.terms(): _walk(t, f, seen)
+            new = []
+            for node in acc:
+                inner = []
+                def g(t, inner=inner):
+                    if z3.is_app(t) and t.decl().kind() == z3.Z3_OP_DIV: inner.append(t)
+                _walk(node.arg(0), g, set())
+                if inner: continue
+                num, d = node.arg(0), node.arg(1); dk = d.sexpr(); p = realtrig.poly_of(z3.simplify(num))
+                if not p.t: r_ = ZERO
+                elif any(dk not in m for m in p.t): continue
+                else:
+                    nt = {}
+                    for m, cf in p.t.items():
+                        l = list(m); l.remove(dk); nt[tuple(l)] = cf
+                    r_ = realtrig._Poly(nt, p.atoms).term()
+                if s.lemma('cancel', node == r_, s.pre + select_axioms(s.ax, [node]), timeout=10): new.append((node, r_))
+            if not new: break
+            s.apply(new)
+    def bvfree(s):
+        memo = {}; atoms = []; seen = set()
+        def f(t):
+            if z3.is_bool(t) and any(z3.is_bv(c) for c in t.children()): atoms.append(t)
+        for t in s.terms(): _walk(t, f, seen)
+        new = []
+        for a in atoms:
+            cs = []
+            def g(t, cs=cs):
+                if z3.is_app(t) and t.decl().kind() == z3.Z3_OP_ITE and z3.is_bv(t) and not _has_bv(t.arg(0), memo):
+                    if not any(t.arg(0).eq(x) for x in cs): cs.append(t.arg(0))
+            _walk(a, g, set())
+            if not cs or len(cs) > 8: continue
+            trues = []; bad = False
+            for m in range(1 << len(cs)):
+                asg = [(c, z3.BoolVal(bool((m >> j) & 1))) for j, c in enumerate(cs)]
+                v = z3.simplify(z3.substitute(a, *asg))
+                if z3.is_true(v): trues.append(z3.And(*[c if (m >> j) & 1 else z3.Not(c) for j, c in enumerate(cs)]) if len(cs) > 1 else (cs[0] if m & 1 else z3.Not(cs[0])))
+                elif not z3.is_false(v): bad = True; break
+            if bad: continue
+            f_ = z3.simplify(z3.Or(*trues)) if trues else z3.BoolVal(False)
+            if s.lemma('bvfree', a == f_, [], solver='z3', timeout=10): new.append((a, f_))
+        s.apply(new)
+    def conds(s, timeout=3, skip=lambda c: False):
+        """If-conditions (and the Boolean atoms inside them) decided by the precondition alone"""
+        for _ in range(6):
+            cand = []; seen = set(); memo = {}
+            def f(t):
+                if z3.is_app(t) and t.decl().kind() == z3.Z3_OP_ITE:
+                    c = t.arg(0)
+                    if not _has_bv(c, memo) and not any(c.eq(x) for x in cand): cand.append(c)
+            for t in s.terms(): _walk(t, f, seen)
+            new = []
+            for c in cand:
+                if skip(c): continue
+                hy = s.pre + select_axioms(s.ax, [c])
+                r, _, _, _ = s.S.query(hy + [z3.Not(c)], timeout, 'nra')
+                if r == 'unsat':
+                    if s.lemma('cond-true', c, hy, timeout=timeout * 3): new.append((c, z3.BoolVal(True)))
+                    continue
+                r, _, _, _ = s.S.query(hy + [c], timeout, 'nra')
+                if r == 'unsat' and s.lemma('cond-false', z3.Not(c), hy, timeout=timeout * 3): new.append((c, z3.BoolVal(False)))
+            if not new: break
+            s.apply(new)
+
+def trs_matrix(R, sc, tr, skew=None, persp=None):
+    """P * T(tr) * R * K(skew) * diag(sc): the composition order documented by recompose(); rows[r][c]"""
+    K = ident(3)
+    if skew is not None:
+        kx, ky, kz = skew; K = [[ONE, kz, ky], [ZERO, ONE, kx], [ZERO, ZERO, ONE]]      # column 1 += kz * column 0; column 2 += ky * column 0 + kx * column 1
+    A = mmul(mmul(R, K), diag(sc))
+    M = [[A[r][c] for c in range(3)] + [rv(tr[r])] for r in range(3)] + [[ZERO, ZERO, ZERO, ONE]]
+    if persp is not None:
+        P = ident(4); P[3] = [rv(x) for x in persp]; M = mmul(P, M)
+    return M
+
+def job_decompose(t, family):
+    def run(S):
+        eps = eps_of(t); fn = 'decrec_' + t if t == 'f32' else 'decompose_' + t
+        sc = list(z3.Reals('sx sy sz')); tr = list(z3.Reals('tx ty tz'))
+        if family == 'Rz':
+            c, s_ = z3.Reals('rc rs'); R = Rz(c, s_); pre = [c * c + s_ * s_ == 1]
+        elif family == 'quat':
+            q = list(z3.Reals('qw qx qy qz')); R = qrotmat(q); pre = [norm2(q) == 1]
+        M = trs_matrix(R, sc, tr)
+        pre += [x > 0 for x in sc] + [sc[0] * sc[1] * sc[2] >= eps]
+        ex = mkex(U, 'real', 16); ins = [[z3.simplify(x) for x in flat(M)]]
+        res = sym_call(U, fn, ins=ins, mode='real', ex=ex)
+        name = 'c09.%s.%s' % (fn, family)
+        C = Chain(S, name, pre, ex.axioms, nonzero=sc, functions=['w_' + fn])
+        C.track('ok', [z3.If(res.outs[0][0] == 1, ONE, ZERO)]); C.track('comp', [rv(x) for x in res.outs[1]])
+        if len(res.outs) > 2: C.track('rec', [rv(x) for x in res.outs[2]])
+        for k in range(3):
+            arg, y = ex.sqrt_log[k]
+            C.equate('scale%d' % k, y, z3.substitute(arg, *[(ex.sqrt_log[j][1], sc[j]) for j in range(k)]), sc[k] * sc[k], sc[k])
+            C.cancel()
+        C.bvfree(); C.conds()
+        comp = C.g['comp']; hy = lambda g: pre + select_axioms(C.ax, [g])
+        goals = [('ok', C.g['ok'][0] == 1)] + [('scale[%d]' % k, comp[k] == sc[k]) for k in range(3)] + [('translation[%d]' % k, comp[7 + k] == tr[k]) for k in range(3)]
+        goals += [('skew[%d]' % k, comp[10 + k] == 0) for k in range(3)] + [('perspective[%d]' % k, comp[13 + k] == (1 if k == 3 else 0)) for k in range(4)]
+        Rq = qrotmat(comp[3:7])
+        goals += [('rotmat(orientation)[r%dc%d]' % (r, k), Rq[r][k] == R[r][k]) for r in range(3) for k in range(3)]
+        if 'rec' in C.g: goals += [('recompose(decompose(M))[%d]' % k, C.g['rec'][k] == flat(M)[k]) for k in range(16)]
+        for lab, g in goals:
+            S.prove('%s.%s' % (name, lab), g, hy(g), timeout=S.cap(40, 120), solver='nra', kind='spec', functions=['w_' + fn], bounds='M = T*R*S, ' + family)
+    return run
+
 def jobs(tier):
     J = []
     for t in FT:
@@ -515,4 +681,6 @@ def jobs(tier):
         for cfg in ('RH', 'LH'):
             J += [('lookat_%s_%s' % (cfg, t), job_lookat(t, cfg)), ('lookat_dispatch_%s_%s' % (cfg, t), job_lookat_dispatch(t, cfg))]
     J.append(('lemmas', job_lemmas))
+    J.append(('decompose_f32_Rz', job_decompose('f32', 'Rz')))
+    J.append(('decompose_f32_quat', job_decompose('f32', 'quat')))
     return J
